@@ -33,15 +33,17 @@ def line_states(lines):
         while j < n and ch_in(ln[j], " \t\f"):
             j += 1
         insignificant.append(st == "code" and (j >= n or ch_eq(ln[j], "#")))
+        ended_with_backslash = False
         while i < n:
             if cur is not None:
                 q = cur[1]
                 if ch_eq(ln[i], "\\"):
+                    ended_with_backslash = i == n - 1
                     i += 2
                     continue
                 if _sw(ln, i, q):
                     cur = None
-                    i += 3
+                    i += len(q)
                     continue
                 i += 1
                 continue
@@ -57,8 +59,10 @@ def line_states(lines):
                     continue
                 j = i + 1
                 closed = False
+                continued = False
                 while j < n:
                     if ch_eq(ln[j], "\\"):
+                        continued = j == n - 1
                         j += 2
                         continue
                     if ch_eq(ln[j], q1):
@@ -67,7 +71,13 @@ def line_states(lines):
                         break
                     j += 1
                 if not closed:
-                    return None, None       # unterminated / backslash-continued single-quoted literal: out of domain
+                    if not continued:
+                        return None, None       # unterminated single-quoted literal: not Python
+                    # the literal goes on after a backslash-newline: the next physical line is inside it
+                    cur = ("str1", q1)
+                    ended_with_backslash = True
+                    i = n
+                    continue
                 i = j
                 continue
             if ch_eq(c, "\\") and i == n - 1:
@@ -79,6 +89,8 @@ def line_states(lines):
             elif ch_in(c, ")]}"):
                 depth = max(0, depth - 1)
             i += 1
+        if cur is not None and cur[0] == "str1" and not ended_with_backslash:
+            return None, None               # a single-quoted literal may only cross a line end behind a backslash
         st = cur if cur is not None else nxt
     if isinstance(st, tuple) or st == "cont" or depth:
         return None, None
